@@ -45,6 +45,12 @@ fn parse_vals(s: &str) -> Vec<Vec<u8>> {
 
 fn main() {
     let args: Vec<String> = std::env::args().collect();
+    if args.len() == 2 && args[1] == "--list" {
+        for (n, _) in cozy_verif_harness::registry() {
+            println!("{}", n);
+        }
+        return;
+    }
     if args.len() < 3 {
         eprintln!("usage: replay <harness> <vals-json | @file>");
         std::process::exit(2);
